@@ -66,6 +66,7 @@ def flatten_or(e):
 def translate(repo):
     hdr = os.path.join(repo, "include", "avtp", "Byteorder.h")
     out = {"swaps": {}, "helpers": {"little": {}, "big": {}}, "opaque": []}
+    out["endian_names"], out["endian_mentions"] = endian_surface(repo)
     for branch, extra in (("little", ("-D__BYTE_ORDER__=__ORDER_LITTLE_ENDIAN__",)),
                           ("big", ("-D__BYTE_ORDER__=__ORDER_BIG_ENDIAN__",))):
         tu = cast.TU(hdr, repo, extra=("-x", "c") + extra)
@@ -99,6 +100,48 @@ def translate(repo):
     return out
 
 
+ENDIAN_TOKENS = r"__BYTE_ORDER__|__ORDER_(?:LITTLE|BIG|PDP)_ENDIAN__|__BYTE_ORDER\b|__LITTLE_ENDIAN\b|__BIG_ENDIAN\b|\bBYTE_ORDER\b|endian\.h|\bhto[nb]|\bntoh|\b[bl]e\d\dtoh|__builtin_bswap"
+
+
+def endian_surface(repo):
+    """Where can the host byte order influence the library?  (a) every name (macro or function)
+    of the public headers whose definition differs between a little- and a big-endian build;
+    (b) every line of src/ and include/ outside Byteorder.h that mentions a host-byte-order
+    facility.  The model admits exactly the twelve conversion helpers for (a) and nothing for (b)."""
+    import glob
+    import re
+    import subprocess
+    inc = os.path.join(repo, "include")
+    hdrs = sorted(glob.glob(os.path.join(inc, "avtp", "**", "*.h"), recursive=True))
+    src = "".join('#include "%s"\n' % os.path.relpath(h, inc) for h in hdrs if not h.endswith(os.path.join("aaf", "Pcm.h")))
+    defs = {}
+    for br, d in (("little", "-D__BYTE_ORDER__=__ORDER_LITTLE_ENDIAN__"), ("big", "-D__BYTE_ORDER__=__ORDER_BIG_ENDIAN__")):
+        r = subprocess.run(["gcc", "-E", "-dD", "-P", "-x", "c", d, "-I", inc, "-"], input=src, capture_output=True, text=True)
+        if r.returncode != 0:
+            raise RuntimeError("preprocessing the public headers (%s) failed: %s" % (br, r.stderr[-500:]))
+        txt = r.stdout
+        m = {}
+        for mm in re.finditer(r"^#define\s+(\w+)(?:\([^)]*\))?\s*(.*)$", txt, re.M):
+            if not mm.group(1).startswith("__") and not mm.group(1) in ("_STDINT_H",):
+                m["macro " + mm.group(1)] = " ".join(mm.group(2).split())
+        # function definitions: name -> normalised body text
+        for mm in re.finditer(r"\b(\w+)\s*\(([^()]*)\)\s*\{([^{}]*)\}", txt):
+            m["function " + mm.group(1)] = " ".join(mm.group(3).split())
+        defs[br] = m
+    names = sorted(k.split(" ", 1)[1] for k in set(defs["little"]) | set(defs["big"])
+                   if defs["little"].get(k) != defs["big"].get(k) and "BYTE_ORDER" not in k)
+    mentions = []
+    files = sorted(glob.glob(os.path.join(repo, "src", "avtp", "**", "*.c"), recursive=True)) + hdrs
+    for f in files:
+        if f.endswith(os.path.join("avtp", "Byteorder.h")):
+            continue
+        for ln, line in enumerate(open(f, errors="replace").read().splitlines(), 1):
+            code = line.split("//")[0]
+            if re.search(ENDIAN_TOKENS, code):
+                mentions.append("%s:%d" % (os.path.relpath(f, repo), ln))
+    return names, mentions
+
+
 def strip_outer(e):
     return e[1:-1] if e.startswith("(") and e.endswith(")") and balanced(e[1:-1]) else e
 
@@ -130,6 +173,10 @@ def emit(bo, path):
                           for h in HELPERS if h in bo["helpers"][br])))
     L.append("def byteorderOpaque : List (String × String × String) := [%s]" % ", ".join(
         '("%s", "%s", "%s")' % tuple(x) for x in bo["opaque"]))
+    L.append("/-- names of the public headers defined differently for little- and big-endian hosts -/")
+    L.append("def endianDependentNames : List String := [%s]" % ", ".join('"%s"' % n for n in bo.get("endian_names", [])))
+    L.append("/-- lines outside Byteorder.h that mention a host-byte-order facility -/")
+    L.append("def endianMentions : List String := [%s]" % ", ".join('"%s"' % n for n in bo.get("endian_mentions", [])))
     L += ["", "end O1722.Gen", ""]
     txt = "\n".join(L)
     if not os.path.exists(path) or open(path).read() != txt:
